@@ -1506,7 +1506,9 @@ class LLHRatioAnalysis(
 
         TS = self.calculate_test_statistic(
             log_lambda=log_lambda,
-            fitparam_values=fitparam_values)
+            fitparam_values=fitparam_values,
+            llhratio=self._llhratio,
+            tl=tl)
 
         global_params_dict = self._pmm.create_global_params_dict(
             gflp_values=fitparam_values)
@@ -1596,7 +1598,9 @@ class LLHRatioAnalysis(
         with TaskTimer(tl, 'Calculating test statistic.'):
             ts = self.calculate_test_statistic(
                 log_lambda=log_lambda,
-                fitparam_values=fitparam_values)
+                fitparam_values=fitparam_values,
+                llhratio=self._llhratio,
+                tl=tl)
 
         # Get the dictionary holding all floating and fixed parameter names
         # and values.
